@@ -417,6 +417,7 @@ func checkC16(c *Ctx) {
 		}
 		delegates := false
 		contacts := false
+		via := ""
 		eachInstr(f, func(in ssa.Instruction) {
 			if call, ok := in.(*ssa.Call); ok {
 				if g := call.Call.StaticCallee(); g != nil && (g == ctor || (m.isLib(g) && g.Object() != nil && g.Object().Exported() && g.Signature.Results().Len() == 2 && types.Identical(g.Signature.Results().At(0).Type(), elIface))) {
@@ -425,12 +426,25 @@ func checkC16(c *Ctx) {
 				if call.Call.IsInvoke() {
 					contacts = true
 				}
+				// ... nor through a helper it calls before delegating (a "wait for the bucket" step)
+				if g := call.Call.StaticCallee(); g != nil && m.isLib(g) && g != ctor && g != vf && !(g.Object() != nil && g.Object().Exported() && g.Signature.Results().Len() == 2 && types.Identical(g.Signature.Results().At(0).Type(), elIface)) {
+					for _, h := range sortedFns(m.staticReach(g, true)) {
+						eachInstr(h, func(x ssa.Instruction) {
+							if c2, ok := x.(*ssa.Call); ok && c2.Call.IsInvoke() {
+								if n := namedOf(c2.Call.Value.Type()); n != nil && n.Obj().Pkg() == m.P.Leader.Pkg && (n.Obj().Name() == "JetStreamProvider" || n.Obj().Name() == "JetStreamContext" || n.Obj().Name() == "NATSConnectionProvider" || n == m.KVIface) {
+									contacts = true
+									via = " (through " + shortFn(h) + ")"
+								}
+							}
+						})
+					}
+				}
 			}
 			if _, isGo := in.(*ssa.Go); isGo {
 				contacts = true
 			}
 		})
-		c.check(delegates && !contacts, "R2", "exported constructor "+shortFn(f)+" delegates", firstInstr(f), "delegates to the validating constructor: %v; contacts a provider itself: %v", delegates, contacts)
+		c.check(delegates && !contacts, "R2", "exported constructor "+shortFn(f)+" delegates", firstInstr(f), "delegates to the validating constructor: %v; contacts a provider itself: %v%s", delegates, contacts, via)
 	}
 }
 
